@@ -273,11 +273,11 @@ def stress_quiescent_extra(pid, inner=None):
         if inner:
             inner(ctx, res, allsched, impl)
         binary, seed, tier = ctx["binary"], ctx["seed"], ctx["tier"]
-        plan = [(4, 1200)] if tier == "quick" else [(2, 5000), (4, 5000), (8, 8000)]
+        plan = [(8, 1200)] if tier == "quick" else [(2, 5000), (4, 5000), (8, 8000)]
         runs = []
         for n, (threads, millis) in enumerate(plan):
             try:
-                p = subprocess.run([binary, "stress", str(threads), str(millis), str(seed + 100 + n)], capture_output=True, text=True, timeout=millis / 1000.0 + 90)
+                p = subprocess.run([binary, "stress", str(threads), str(millis), str(seed + 100 + n)] + (["readers"] if pid == "C15" else []), capture_output=True, text=True, timeout=millis / 1000.0 + 90)
                 out = [json.loads(l) for l in p.stdout.splitlines() if l.startswith("{")]
             except subprocess.TimeoutExpired:
                 res["failures"].append(dict(signature="stress-run-hung", what="the stress run with %d threads did not finish" % threads, threads=threads, millis=millis, seed=seed + 100 + n))
@@ -345,7 +345,7 @@ PROPS.update({
     "C05": dict(module="C05", run=mk("C05", ["general", "queue1", "ttl", "evict", "evict2"], 250, 4000, extra=stress_quiescent_extra("C05", stress2_extra("C05"))), components=["weights", "store", "api", "queue_worker", "ticker", "admission"]),
     "C06": dict(module="C06", run=mk("C06", ["evict2", "evict", "general"], 270, 4000), components=["admission", "weights", "sketch", "tinylfu", "store"]),
     "C07": dict(module="C07", run=mk("C07", ["general", "ttl", "awaited"], 250, 4000), components=["store", "api", "time", "queue_worker"]),
-    "C08": dict(module="C08", run=mk("C08", ["general", "ttl", "roomy", "ttlchain"], 250, 4000), components=["store", "api", "ticker", "weights", "time", "queue_worker"]),
+    "C08": dict(module="C08", run=mk("C08", ["general", "ttl", "roomy", "ttlchain", "upsertpipe"], 250, 4000), components=["store", "api", "ticker", "weights", "time", "queue_worker"]),
     "C09": dict(module="C09", run=mk("C09", ["ttl", "general", "ttlchain"], 250, 4000), components=["store", "time", "api", "ticker"]),
     "C10": dict(module="C10", run=mk("C10", ["ttl", "general", "ttlchain"], 250, 4000), components=["ticker", "weights", "store", "api", "time"]),
 })
@@ -372,7 +372,7 @@ def run_C12(ctx):
 
 
 PROPS.update({
-    "C02": dict(module="C02", run=mk("C02", ["general", "reads", "ttl", "evict", "queue1"], 250, 4000), components=["store", "api", "queue_worker", "time"],
+    "C02": dict(module="C02", run=mk("C02", ["general", "reads", "ttl", "evict", "queue1", "ttlchain"], 250, 4000), components=["store", "api", "queue_worker", "time"],
                 assumptions=["phase-contiguous schedules; every write uses a unique value token; hash functions identity / constant / mod 2 / multiplicative"]),
     "C11": dict(module="C11", run=mk("C11", ["queue1", "general", "shutdown"], 250, 4000), components=["queue_worker", "api", "roles"],
                 assumptions=["that crossbeam's bounded channel is FIFO and that send blocks when full is exercised through parked senders (queue sizes 1,2,3,8), not proved"]),
